@@ -260,7 +260,79 @@ def door_avro_names(name, fields):
         os.unlink(p)
 
 
-DOORS = {"ctor": door_ctor, "stream": door_stream, "json": door_json, "avro-doc": door_avro_doc, "avro-names": door_avro_names}
+def strdef_text(name, fields):
+    """The deprecated one-string definition ("name\\n type field;\\n ...") that denotes exactly (name, fields), or None when the
+    candidate cannot be written that way (it contains the syntax's own separators)."""
+    if not name or name != name.strip() or "\n" in name:
+        return None
+    for t, n in fields:
+        if not t or not n or any(c.isspace() for c in t + n) or n.endswith(";"):
+            return None
+    return name + "".join("\n    %s %s;" % (t, n) for t, n in fields)
+
+
+def door_strdef(name, fields):
+    from flow.record import RecordDescriptor
+
+    text = strdef_text(name, fields)
+    if text is None:
+        return "door-closed"
+    return RecordDescriptor(text)
+
+
+def door_clone(name, fields):
+    """The deprecated RecordDescriptor(name, other_descriptor): only the name is new."""
+    from flow.record import RecordDescriptor
+
+    try:
+        base = RecordDescriptor("ok/base", [tuple(f) for f in fields])
+    except Exception:  # noqa: BLE001
+        return "door-closed"
+    return RecordDescriptor(name, base)
+
+
+def door_stream_nil(name, fields):
+    """A descriptor frame [definition string, nil]: the string-only definition arriving inside a stream."""
+    from flow.record import RecordStreamReader
+
+    text = strdef_text(name, fields)
+    if text is None:
+        return "door-closed"
+    hdr = refcodec.frame(refcodec.mp_encode(refcodec.Bin(refcodec.MAGIC)))
+    desc = refcodec.frame(refcodec.mp_encode(refcodec.Ext(14, refcodec.mp_encode([2, [text, None]]))))
+    rd = RecordStreamReader(io.BytesIO(hdr + desc))
+    for _ in rd:
+        pass
+    ds = [d for k, d in rd.packer.descriptors.items() if isinstance(k, tuple)]
+    if not ds:
+        raise LookupError("descriptor frame was not registered")
+    return ds[-1]
+
+
+def door_json_nil(name, fields):
+    from flow.record.adapter.jsonfile import JsonfileReader
+
+    text = strdef_text(name, fields)
+    if text is None:
+        return "door-closed"
+    _n[0] += 1
+    p = os.path.join(os.environ["VERIF_SCRATCH"], "c06-%d-%d.json" % (os.getpid(), _n[0]))
+    with open(p, "w") as f:
+        f.write(json.dumps({"_type": "recorddescriptor", "_data": [text, None]}) + "\n")
+    try:
+        rd = JsonfileReader(p)
+        for _ in rd:
+            pass
+        ds = [d for k, d in rd.packer.descriptors.items() if isinstance(k, tuple)]
+        rd.close()
+        if not ds:
+            raise LookupError("descriptor line was not registered")
+        return ds[0]
+    finally:
+        os.unlink(p)
+
+
+DOORS = {"strdef": door_strdef, "clone": door_clone, "stream-nil": door_stream_nil, "json-nil": door_json_nil, "ctor": door_ctor, "stream": door_stream, "json": door_json, "avro-doc": door_avro_doc, "avro-names": door_avro_names}
 
 
 def check_shape(desc, name, fields, door, case, viol):
@@ -322,6 +394,8 @@ def run_case(case):
     outs = []
     doors = case.get("doors") or ["ctor", "stream", "json"]
     what = case["what"]
+    if what in ("type-name", "field-name", "field-type"):
+        doors = list(doors) + ["strdef", "stream-nil", "json-nil"] + (["clone"] if what == "type-name" else [])
     PRELUDE[0] = case.get("prelude")
     for door in doors:
         clear()
